@@ -288,23 +288,13 @@ def toplevel_rule(F, rep):
         if n.get("k") == "Call" and (declared(n) or "") == "io::expect_bytes":
             got = F.bytes_of(n["args"][1])
     rep.ob("toplevel.reader-key", got == key[1:], "io::slippi::de::parse_metadata", "key", "parse_metadata must expect %s after the 'U', got %s" % (key[1:], got))
-    rb = F.body("io::slippi::de::read")
-    m, arms, default = byte_match(L.strip_try(rb["tir"]["value"]).get("stmts", [])[-2] if False else rb["tir"]["value"])
-    # the terminator match is the last byte match in read(): find the one with arms {0x55, 0x7d}
-    term = None
-    for n in tir.walk(rb["tir"]["value"]):
-        mm, aa, dd = byte_match(n) if n.get("k") == "Match" else (None, {}, None)
-        if mm is n and set(aa) == {0x55, 0x7d}:
-            term = (aa, dd)
-    ok = False
-    if term:
-        aa, dd = term
-        calls55 = [x for x in tir.walk(aa[0x55]) if x.get("k") == "Call" and (declared(x) or "") in ("io::slippi::de::parse_metadata", "io::expect_bytes")]
-        ok = (len(calls55) == 2 and declared(calls55[0]) == "io::slippi::de::parse_metadata" and declared(calls55[1]) == "io::expect_bytes" and F.bytes_of(calls55[1]["args"][1]) == [0x7d]
-              and is_err(L.strip_try(dd).get("e") or dd)) if dd is not None else False
-        none_arm = L.strip_try(aa[0x7d])
-        ok = ok and (none_arm.get("k") in ("Block", "Tup")) and not list(x for x in tir.walk(none_arm) if x.get("k") in ("Call", "MethodCall", "Assign"))
-    rep.ob("toplevel.reader-terminator", bool(ok), "io::slippi::de::read", "terminator", "after the raw element read() must accept 'U'+metadata+'}' or a bare '}' (no metadata) and nothing else")
+    import slpterm
+    try:
+        ok, detail = slpterm.check(F)
+        rep.ob("toplevel.reader-terminator", bool(ok), "io::slippi::de::read", "terminator",
+               "after the raw element read() must accept 'U'+metadata+'}' or a bare '}' (no metadata) and nothing else; " + detail)
+    except L.Unsupported as e:
+        rep.cannot("toplevel.reader-terminator", "io::slippi::de::read", e)
     # writer
     wb = F.body("io::slippi::ser::write")
     seq = []
